@@ -15,19 +15,20 @@ structure LoopPost (cfg : Cfg) (db : Db) (now : Int) (stepNo : Nat) (s : Subj) (
     Dict.get? rid ls.pending = some rec ∨ (rid.step = stepNo ∧ rid.idp ∈ es ∧ rec = ⟨rid.idp, cell, s, expire⟩)
   sent : ∀ x ∈ r.sent, x ∈ ls.sent ∨ (x.id.step = stepNo ∧ x.id.idp ∈ es ∧ x.subj = s ∧ x.b = cfg.bind x.id.idp ∧
     sessionIndexOf db now s x.id.idp = some x.sidx)
+  pend : ∀ x ∈ r.sent, x ∈ ls.sent ∨ x.b = .soap ∨ x.id ∈ Dict.keys r.pending
 
 variable {cfg : Cfg} {db : Db} {now : Int} {stepNo : Nat} {s : Subj} {cell : Nat} {expire : Option Int}
 
 theorem LoopPost.refl (es : List Idp) (ls : LoopSt) : LoopPost cfg db now stepNo s cell expire es ls ls :=
-  ⟨fun _ _ => rfl, fun _ h => h, fun _ _ h => Or.inl h, fun _ h => Or.inl h⟩
+  ⟨fun _ _ => rfl, fun _ h => h, fun _ _ h => Or.inl h, fun _ h => Or.inl h, fun _ h => Or.inl h⟩
 
 /-- One iteration that only sends (SOAP), followed by the rest of the loop. -/
 theorem LoopPost.consSend {j : Idp} {t : List Idp} {ls r : LoopSt} {nd : List Idp} {sidx : Option Nat} {b : Bind}
-    (hb : cfg.bind j = b) (hsi : sessionIndexOf db now s j = some sidx)
+    (hb : cfg.bind j = b) (hsoap : b = .soap) (hsi : sessionIndexOf db now s j = some sidx)
     (h : LoopPost cfg db now stepNo s cell expire t
       { ls with notDone := nd, sent := ls.sent ++ [⟨⟨stepNo, j⟩, b, s, sidx⟩] } r) :
     LoopPost cfg db now stepNo s cell expire (j :: t) ls r := by
-  refine ⟨h.keep, h.keys, ?_, ?_⟩
+  refine ⟨h.keep, h.keys, ?_, ?_, ?_⟩
   · intro rid rec hr
     rcases h.new rid rec hr with h1 | ⟨h1, h2, h3⟩
     · exact Or.inl h1
@@ -41,6 +42,14 @@ theorem LoopPost.consSend {j : Idp} {t : List Idp} {ls r : LoopSt} {nd : List Id
         exact Or.inr ⟨rfl, List.mem_cons_self .., rfl, hb.symm, hsi⟩
     · exact Or.inr ⟨h1, List.mem_cons_of_mem _ h2, h3⟩
 
+  · intro x hx
+    rcases h.pend x hx with h1 | h1
+    · simp only [List.mem_append, List.mem_singleton] at h1
+      rcases h1 with h1 | h1
+      · exact Or.inl h1
+      · subst h1; exact Or.inr (Or.inl hsoap)
+    · exact Or.inr h1
+
 /-- One iteration that records a pending request (Redirect/POST), followed by the rest of the loop. -/
 theorem LoopPost.consPend {j : Idp} {t : List Idp} {ls r : LoopSt} {nd : List Idp} {sidx : Option Nat} {b : Bind}
     (hb : cfg.bind j = b) (hsi : sessionIndexOf db now s j = some sidx)
@@ -48,7 +57,7 @@ theorem LoopPost.consPend {j : Idp} {t : List Idp} {ls r : LoopSt} {nd : List Id
       { pending := Dict.set ⟨stepNo, j⟩ ⟨j, cell, s, expire⟩ ls.pending, notDone := nd,
         sent := ls.sent ++ [⟨⟨stepNo, j⟩, b, s, sidx⟩] } r) :
     LoopPost cfg db now stepNo s cell expire (j :: t) ls r := by
-  refine ⟨?_, ?_, ?_, ?_⟩
+  refine ⟨?_, ?_, ?_, ?_, ?_⟩
   · intro rid hne
     rw [h.keep rid hne]
     apply Dict.get?_set_other
@@ -75,6 +84,17 @@ theorem LoopPost.consPend {j : Idp} {t : List Idp} {ls r : LoopSt} {nd : List Id
       · subst h1
         exact Or.inr ⟨rfl, List.mem_cons_self .., rfl, hb.symm, hsi⟩
     · exact Or.inr ⟨h1, List.mem_cons_of_mem _ h2, h3⟩
+
+  · intro x hx
+    rcases h.pend x hx with h1 | h1
+    · simp only [List.mem_append, List.mem_singleton] at h1
+      rcases h1 with h1 | h1
+      · exact Or.inl h1
+      · subst h1
+        refine Or.inr (Or.inr ?_)
+        apply h.keys
+        exact (Dict.mem_keys_set _ _ _ _).mpr (Or.inl rfl)
+    · exact Or.inr h1
 
 theorem sloLoop_post (cfg : Cfg) (db : Db) (now : Int) (stepNo : Nat) (s : Subj) (cell : Nat) (expire : Option Int) :
     ∀ (es : List Idp) (ls : LoopSt),
@@ -108,8 +128,8 @@ theorem sloLoop_post (cfg : Cfg) (db : Db) (now : Int) (stepNo : Nat) (s : Subj)
       | some sidx =>
         simp only [if_true]
         cases hm : cfg.soapMode j with
-        | ok => simp only; exact LoopPost.consSend hb hsi (ih _)
-        | http500 => simp only; exact LoopPost.consSend (nd := ls.notDone) hb hsi (ih _)
-        | denied => simp only; exact LoopPost.consSend hb hsi (LoopPost.refl _ _)
+        | ok => simp only; exact LoopPost.consSend hb rfl hsi (ih _)
+        | http500 => simp only; exact LoopPost.consSend (nd := ls.notDone) hb rfl hsi (ih _)
+        | denied => simp only; exact LoopPost.consSend hb rfl hsi (LoopPost.refl _ _)
 
 end Session
